@@ -199,11 +199,13 @@ int cmd_c19(int argc, char **argv) {
       if (i >= nform) { int j = (i - nform) % (nn + nr); const char *nm = j < nn ? nist[j] : nuc[j - nn]; snprintf(f, sizeof f, "%s", nm); }
       else {
         int items = rndint(1, 5), depth = 0;
+        /* one formula in three draws its symbols from seven elements, so that an element met inside a group is as a rule also present outside it or in a sibling group (merging paths) */
+        int small = rndint(0, 2) == 0; static const int FEW[] = {1, 6, 7, 8, 20, 26, 82}; if (small) items += rndint(1, 3);
         for (int k = 0; k < items && o < 400; k++) {
           int r = rndint(0, 9);
           if (r == 0 && depth < 3) { f[o++] = '('; depth++; items += rndint(1, 2); continue; }
           if (r == 1 && depth > 0 && o > 0 && f[o - 1] != '(') { f[o++] = ')'; depth--; goto sub; }
-          { char *sym = AtomicNumberToSymbol(rndint(1, rndint(0, 3) ? 56 : 110), NULL); o += sprintf(f + o, "%s", sym); xrlFree(sym); }
+          { char *sym = AtomicNumberToSymbol(small ? FEW[rndint(0, 6)] : rndint(1, rndint(0, 3) ? 56 : 110), NULL); o += sprintf(f + o, "%s", sym); xrlFree(sym); }
           sub: { int t = rndint(0, 5); if (t == 1) o += sprintf(f + o, "%d", rndint(1, 30)); else if (t == 2) o += sprintf(f + o, "%d.%d", rndint(0, 9), rndint(1, 99)); else if (t == 3) o += sprintf(f + o, "0.%03d", rndint(1, 999)); }
         }
         while (depth-- > 0) { if (o > 0 && f[o - 1] == '(') o += sprintf(f + o, "H"); f[o++] = ')'; if (rndint(0, 1)) o += sprintf(f + o, "%d", rndint(2, 9)); }
